@@ -137,7 +137,7 @@ def strategy(tier):
         'v': gens.sub_strategy(S), 'place': st.sampled_from(PLACES),
         'width': st.one_of(st.integers(1, 40), st.integers(1, 120)),
         'ribbon': st.one_of(st.just(None), st.integers(1, 120)),
-        'indent': st.sampled_from([1, 2, 4, 8]), 'sort': st.booleans(),
+        'indent': st.sampled_from([1, 2, 4, 8]), 'sort': st.booleans(), 'opts': S['neutral'],
     }).map(lambda c: dict(c, ribbon=c['ribbon'] or c['width']))
 
 
@@ -154,7 +154,7 @@ def oracle(case):
             where = 'val'
     obj = _place(x, where)
     sort = bool(case.get('sort'))
-    p = values.pp(obj, width=case['width'], ribbon_width=case['ribbon'], indent=case['indent'], sort_dict_keys=sort)
+    p = values.pp(obj, width=case['width'], ribbon_width=case['ribbon'], indent=case['indent'], sort_dict_keys=sort, **(case.get('opts') or {}))
     labels = [base, variant]
     if p.exc is not None:
         return core.viol('pformat-raised', repr(p.exc), labels)
